@@ -7,6 +7,7 @@ pub mod c06;
 pub mod c07;
 pub mod c08;
 pub mod c09;
+pub mod c11;
 pub mod c15;
 
 pub fn dispatch(ctx: &Ctx, rest: &[String]) -> i32 {
@@ -33,6 +34,7 @@ pub fn dispatch(ctx: &Ctx, rest: &[String]) -> i32 {
         "C07" => c07::run(ctx),
         "C08" => c08::run(ctx),
         "C09" => c09::run(ctx),
+        "C11" => c11::run(ctx),
         "C15" => c15::run(ctx),
         other => {
             eprintln!("unknown check {}", other);
